@@ -130,7 +130,24 @@ def _c15(prop, rec):
     return r(prop, rec)
 
 
+def _c16(prop, rec):
+    from .props_c16 import replay as r
+
+    return r(prop, rec)
+
+
+def _c14(prop, rec):
+    from .props_c14 import replay as r
+
+    return r(prop, rec)
+
+
 REPLAYERS = {
+    "c14-hashseed": _c14,
+    "c14-history": _c14,
+    "c14-schedule": _c14,
+    "c16-rng": _c16,
+    "c16-seed": _c16,
     "c15": _c15,
     "c09-graph": _c09,
     "c09-string": _c09,
